@@ -30,9 +30,11 @@ let run () =
     let (c, sp) = match both with L [c; s] -> (cfg c, Specio.spec s) | _ -> failwith "emit line" in
     (* the whole tree comes from the Coq function Crate.generate (extraction, pruning, every file) *)
     (* Spec/Wf.v: do the hypotheses of the totality theorem (emit_crate_total, depth 60 <= fuel 200) hold for this input? *)
+    (* Spec/WfSpec.v: does the hypothesis of extract_spec_total hold for the document? (fourth token) *)
+    let sok = if Model.spec_ok (nat_of 60) sp then "t" else "f" in
     (match Model.extract_spec fuel sp with
-     | Model.Ok h -> Printf.printf "%s W %s\n" id (if Model.hir_ok (nat_of 60) h (Model.cli_config c) then "t" else "f")
-     | Model.Err _ -> Printf.printf "%s W x\n" id);
+     | Model.Ok h -> Printf.printf "%s W %s %s\n" id (if Model.hir_ok (nat_of 60) h (Model.cli_config c) then "t" else "f") sok
+     | Model.Err _ -> Printf.printf "%s W x %s\n" id sok);
     match Model.generate fuel sp c (templates ()) with
     | Model.Err e -> Printf.printf "%s R err:%s\n" id (err_name e)
     | Model.Ok files ->
